@@ -1,2 +1,149 @@
-/-! Line-protocol driver stub (to be filled in): reads stdin, echoes nothing. -/
-def main : IO Unit := pure ()
+import SMV.Model.Diagram
+/-!
+# Line-protocol driver for the diagram model (`drv_diagram`, property C18)
+
+Input, one scenario between `scn diagram <name>` and `end`:
+
+```
+style fill=<s> pen=<s>                   -- DotGraphMachine.state_active_fillcolor / _penwidth
+state id=<s> name=<s> value=<s> init=<0|1> final=<0|1> enter=<s,s,..|-> exit=<s,..|->
+trans src=<index of the state line> tgt=<s> int=<0|1> ev=<s,..|-> guards=<s:1,s:0,..|-> on=<s,..|->
+subject cls | subject inst <s>           -- any number; one output block each
+```
+
+Every `<s>` is a string in which each character outside `[A-Za-z0-9_]` is written `%<hex>;`.
+
+Output: `scn <name>`, then per subject `sub …` followed by the `add_node`/`add_edge` calls in order
+
+```
+N <id> shape=<circle|rectangle> label=<s|-> per=<n|-> fill=<s> pen=<s|->
+E <src> <dst> label=<s>
+```
+
+or `ERR <noinitial|invalidstate>`, then `end`.
+-/
+open SMV.Diagram
+
+namespace DrvDiagram
+
+def hexVal (c : Char) : Nat :=
+  if c.isDigit then c.toNat - 48
+  else if 'a' ≤ c ∧ c ≤ 'f' then c.toNat - 87
+  else if 'A' ≤ c ∧ c ≤ 'F' then c.toNat - 55
+  else 0
+
+def decGo : List Char → Option Nat → String → String
+  | [], _, acc => acc
+  | c :: cs, none, acc => if c == '%' then decGo cs (some 0) acc else decGo cs none (acc.push c)
+  | c :: cs, some n, acc =>
+    if c == ';' then decGo cs none (acc.push (Char.ofNat n)) else decGo cs (some (n * 16 + hexVal c)) acc
+
+def dec (s : String) : String := decGo s.toList none ""
+
+def enc (s : String) : String :=
+  s.foldl (fun acc c =>
+    if c.isAlphanum || c == '_' then acc.push c
+    else acc ++ "%" ++ String.ofList (Nat.toDigits 16 c.toNat) ++ ";") ""
+
+def splitWs (s : String) : List String := (s.splitOn " ").filter (· ≠ "")
+
+def kvs (toks : List String) : List (String × String) :=
+  toks.filterMap fun t =>
+    match t.splitOn "=" with
+    | k :: v :: rest => some (k, "=".intercalate (v :: rest))
+    | _ => none
+
+def look (kv : List (String × String)) (k : String) : String :=
+  match kv.find? (·.1 == k) with
+  | some (_, v) => v
+  | none => "-"
+
+def strList (s : String) : List String :=
+  if s == "-" then [] else (s.splitOn ",").map dec
+
+def guardList (s : String) : List Guard :=
+  if s == "-" then [] else
+  (s.splitOn ",").filterMap fun t =>
+    match t.splitOn ":" with
+    | [a, b] => some { name := dec a, expected := b == "1" }
+    | _ => none
+
+structure Scn where
+  name : String := ""
+  states : Array StateDef := #[]
+  subjects : Array Subject := #[]
+  fill : String := "turquoise"
+  pen : String := "2"
+deriving Inhabited
+
+def addLine (s : Scn) (toks : List String) : Scn :=
+  match toks with
+  | "style" :: rest =>
+    let kv := kvs rest
+    { s with fill := dec (look kv "fill"), pen := dec (look kv "pen") }
+  | "state" :: rest =>
+    let kv := kvs rest
+    let sd : StateDef :=
+      { id := dec (look kv "id"), name := dec (look kv "name"), value := dec (look kv "value"),
+        initial := look kv "init" == "1", final := look kv "final" == "1",
+        enter := strList (look kv "enter"), exit := strList (look kv "exit") }
+    { s with states := s.states.push sd }
+  | "trans" :: rest =>
+    let kv := kvs rest
+    let tr : TransDef :=
+      { target := dec (look kv "tgt"), internal := look kv "int" == "1",
+        events := strList (look kv "ev"), guards := guardList (look kv "guards"),
+        on := strList (look kv "on") }
+    let src := (look kv "src").toNat?.getD 0
+    { s with states := s.states.modify src fun sd => { sd with trans := sd.trans ++ [tr] } }
+  | "subject" :: "cls" :: _ => { s with subjects := s.subjects.push .cls }
+  | "subject" :: "inst" :: v :: _ => { s with subjects := s.subjects.push (.inst (dec v)) }
+  | "subject" :: "inst" :: [] => { s with subjects := s.subjects.push (.inst "") }
+  | _ => s
+
+def itemLine (s : Scn) : Item → String
+  | .node n =>
+    match n.label with
+    | none => s!"N {enc n.id} shape=circle label=- per=- fill=black pen=-"
+    | some l =>
+      let per := match n.peripheries with
+        | some p => toString p
+        | none => "-"
+      let fill := if n.highlighted then enc s.fill else "white"
+      let pen := if n.highlighted then enc s.pen else "-"
+      s!"N {enc n.id} shape=rectangle label={enc (renderStateLabel l)} per={per} fill={fill} pen={pen}"
+  | .edge e => s!"E {enc e.src} {enc e.dst} label={enc (renderEdgeLabel e.label)}"
+
+def subjectLine : Subject → String
+  | .cls => "sub cls"
+  | .inst v => s!"sub inst {enc v}"
+
+def runScn (s : Scn) : List String :=
+  let m : Machine := ⟨s.states.toList⟩
+  s.subjects.toList.flatMap fun sub =>
+    subjectLine sub ::
+      match getGraph m sub with
+      | .ok g => g.items.map (itemLine s)
+      | .error .noInitialState => ["ERR noinitial"]
+      | .error .invalidStateValue => ["ERR invalidstate"]
+
+partial def loop (h : IO.FS.Stream) (out : IO.FS.Stream) (cur : Option Scn) : IO Unit := do
+  let line ← h.getLine
+  if line.isEmpty then return
+  let toks := splitWs (line.trimAscii.toString)
+  match toks, cur with
+  | "scn" :: _ :: name :: _, _ => loop h out (some { name := name })
+  | ["end"], some s =>
+    out.putStrLn s!"scn {s.name}"
+    for l in runScn s do out.putStrLn l
+    out.putStrLn "end"
+    loop h out none
+  | _, some s => loop h out (some (addLine s toks))
+  | _, none => loop h out none
+
+end DrvDiagram
+
+def main : IO Unit := do
+  let stdin ← IO.getStdin
+  let stdout ← IO.getStdout
+  DrvDiagram.loop stdin stdout none
